@@ -4,15 +4,23 @@ import AslProofs.JsonSpec
 import AslProofs.XdlEnc
 import AslProofs.XdlX
 import AslProofs.XdlXP
+import AslProofs.XdlSame
+import AslProofs.XdlSameX
+import AslProofs.XdlUtf8Enc
+import AslProofs.XdlNum
+import AslProofs.NumValDefs
+import AslProofs.NumVal
 /-!
 # C05 — JSON (and XDL) encoding round-trips every Var
 
 Property theorems only.  All statements are about `AslModel.Xdl.enc / encode / encW / writeChunks /
 readFile` (the transcription of `XdlEncoder`, `Xdl::write`, `Xdl::read` that the driver `asl_c05` runs
 against the real library on every check) and `decode` of C06.  `g P bits` stands for
-`snprintf("%.Pg", x)`; the theorems hold for every `g` with **H1** (`g` prints RFC 8259 number lexemes
-for finite doubles); the driver instantiates `g := AslModel.Dtoa.fmtG`, which the correspondence check
-compares with glibc on every generated number.  The oracle for "accepted by an independent strict JSON
+`snprintf("%.Pg", x)`.  The structural theorems hold for every `g` with **H1** (`g` prints RFC 8259 number
+lexemes for finite doubles); the number clauses are stated against the VALUE: **H1v** (the lexeme's decimal value
+is the double's value correctly rounded to P digits, over ℚ) and **H2d/H2f** (17 / 9 digits identify a double /
+float through `atof`).  The driver instantiates `g := AslModel.Dtoa.fmtG`, `atof := AslModel.Strtod.atofBits`,
+which the correspondence check compares with glibc on every generated number.  The oracle for "accepted by an independent strict JSON
 parser and denotes the same value" is the RFC 8259 grammar `Rfc8259.SerV` (lean/AslProofs/JsonSpec.lean),
 written from the RFC independently of encoder and decoder.
 -/
@@ -58,11 +66,6 @@ theorem roundtrip_int (g : Nat → UInt64 → Bytes) (m : Mode) (i : Int) (h1 : 
     norm (denote g m (.int i)) = if (itoa i).length ≤ 9 then .int i else .num (itoa i) :=
   norm_denote_int g m i h1 h2
 
-/-- ... strings, booleans and null come back identical -/
-theorem roundtrip_scalars (g : Nat → UInt64 → Bytes) (m : Mode) (s : Bytes) (b : Bool) :
-    norm (denote g m (.str s)) = .str s ∧ norm (denote g m (.bool b)) = .bool b ∧ norm (denote g m .null) = .null := by
-  simp [denote, norm]
-
 /-- ... and an object with pairwise distinct keys (what a `Dic` holds) comes back with exactly its
     members, in order, nothing merged -/
 theorem roundtrip_object_members (ms : List (Bytes × JV)) (h : (ms.map (·.1)).Nodup) :
@@ -93,12 +96,77 @@ theorem file_roundtrip (g : Nat → UInt64 → Bytes) (m : Mode) (hj : m.json = 
     readFile (writeChunks g m v).flatten = decode (encode g m v) :=
   AslProofs.XdlEnc.file_roundtrip g m hj hg v hw
 
-/-! ## statements kept in full, validated by the correspondence check only -/
+/-! ## the whole tree comes back: structure, keys, strings, booleans -/
 
-/-- H2 (glibc): `atof` of the 17-digit lexeme gives the double back bit for bit — a hypothesis about
-    libc, exercised by K and the python oracle on every generated double, not proved -/
-def double_roundtrip_full (g : Nat → UInt64 → Bytes) (atof : Bytes → UInt64) : Prop :=
-  ∀ b : UInt64, dFinite b = true → b.toNat % 2 ^ 63 ≠ 0 → atof (g 17 b) = b
+/-- `Same N v r` (AslProofs/XdlSame.lean) says `r` has exactly the structure of `v`: same array lengths and
+    order, the same keys in the same order with undefined members dropped, identical strings and booleans,
+    null for null/undefined, and every number leaf related by `N`.  For every tree whose objects have distinct
+    keys (what a `Dic` holds) the JSON round trip returns such an `r`: -/
+theorem json_roundtrip_same (g : Nat → UInt64 → Bytes) (m : Mode) (hj : m.json = true) (hg : H1 g) (v : EV) (hw : WF v)
+    (hk : KeysNodup v) (hd : depth (denote g m v) ≤ 1000) :
+    ∃ r, decode (encode g m v) = some (some r) ∧ Same (NumJ g m) v r :=
+  ⟨_, decode_encode g m hj hg v hw hd, same_json g m v hw hk⟩
+
+/-- ... where a number leaf comes back as (`NumJ`): the same int, or — for ints of 10+ characters — the
+    lexeme `itoa i` whose decimal value is `i`; a real as `norm` of the lexeme printed for it -/
+theorem numJ_int (g : Nat → UInt64 → Bytes) (m : Mode) (i : Int) (r : JV) (h : NumJ g m (.int i) r) :
+    r = .int i ∨ (r = .num (itoa i) ∧ Number (itoa i) ∧ decVal (itoa i) = i) := h
+
+/-! ## numbers, against their value -/
+
+/-- ints of 10+ characters go through `atof`: the double obtained is exactly the int (model `atof`) -/
+theorem atof_int_exact (i : Int) (h1 : -2147483648 ≤ i) (h2 : i ≤ 2147483647) :
+    NumVal.dval (AslModel.Strtod.atofBits (itoa i)) = (i : Rat) :=
+  AslProofs.Num.atof_int_exact i h1 h2
+
+/-- under H1v the number clause of `encode_in_rfc` has content: the lexeme written for a finite double is an
+    RFC 8259 number whose decimal value is the double's value correctly rounded to the mode's precision -/
+theorem encode_number_value (g : Nat → UInt64 → Bytes) (m : Mode) (hg : H1v g) (b : UInt64) (hb : dFinite b = true)
+    (lvl : Nat) :
+    enc g m lvl (.num b) = g (precD m) b ∧ Number (g (precD m) b) ∧
+      NumVal.RoundedTo (if precD m = 0 then 1 else precD m) (NumVal.dval b) (NumVal.lexVal (g (precD m) b)) := by
+  obtain ⟨h1, h2⟩ := hg (precD m) b hb
+  refine ⟨?_, h1, h2⟩
+  simp [enc, encReal, hb, fixComma_id _ (number_no_comma h1)]
+
+/-- the headline clause, conditional on H2d: in the default mode a finite non-zero double is written as its
+    17-digit lexeme, the decoder reads that lexeme back (`DecodedAs`: through `atof`, or as the int it spells when
+    it is an integer of at most 9 characters), and `atof` of it is the double bit for bit -/
+theorem double_roundtrip (g : Nat → UInt64 → Bytes) (atof : Bytes → UInt64) (hg : H1 g) (h2 : H2d g atof) (m : Mode)
+    (hj : m.json = true) (hs : m.simple = false) (hf : m.shortf = false) (b : UInt64) (hb : dFinite b = true)
+    (hnz : b.toNat % 2 ^ 63 ≠ 0) :
+    ∃ r, decode (encode g m (.num b)) = some (some r) ∧ DecodedAs (g 17 b) r ∧ atof (g 17 b) = b := by
+  have hp : precD m = 17 := by simp [precD, hs, hf]
+  obtain ⟨r, hr, hd⟩ := real_roundtrip g m hj hg 17 b hb (.num b) (Or.inl ⟨rfl, hp.symm⟩)
+  exact ⟨r, hr, hd, h2 b hb hnz⟩
+
+/-- the same for floats, conditional on H2f: written with 9 digits, read back, narrowed to the same float -/
+theorem float_roundtrip (g : Nat → UInt64 → Bytes) (atof : Bytes → UInt64) (narrow : UInt64 → UInt64) (hg : H1 g)
+    (h2 : H2f g atof narrow) (m : Mode) (hj : m.json = true) (hs : m.simple = false) (b : UInt64)
+    (hb : dFinite b = true) (hnz : b.toNat % 2 ^ 63 ≠ 0) (hfl : narrow b = b) :
+    ∃ r, decode (encode g m (.flt b)) = some (some r) ∧ DecodedAs (g 9 b) r ∧ narrow (atof (g 9 b)) = b := by
+  have hp : precF m = 9 := by simp [precF, hs]
+  obtain ⟨r, hr, hd⟩ := real_roundtrip g m hj hg 9 b hb (.flt b) (Or.inr ⟨rfl, hp.symm⟩)
+  exact ⟨r, hr, hd, h2 b hb hnz hfl⟩
+
+/-! ### statements about libc kept in full (exercised by K and the python oracle on every generated number) -/
+
+/-- H2d for the models the driver runs (= for glibc, by the correspondence check): not proved -/
+def double_roundtrip_full : Prop := H2d AslModel.Dtoa.fmtG AslModel.Strtod.atofBits
+
+/-- H1v for the formatter the driver runs: correct rounding of `Dtoa.fmtG` — see `fmtG_H1` below for what is proved -/
+def fmtG_rounds_full : Prop := H1v AslModel.Dtoa.fmtG
+
+/-! ## well-formed UTF-8 in, well-formed UTF-8 out -/
+
+/-- the grammar above lets any byte ≥ 0x80 through; this closes the gap: escaping keeps RFC 3629 well-formedness -/
+theorem encString_utf8 (s : Bytes) (h : ValidUtf8 s) : ValidUtf8 (encString s) :=
+  AslProofs.XdlEnc.encString_utf8 s h
+
+/-- every mode: if all strings and keys of the tree are well-formed UTF-8, the whole encoder output is -/
+theorem encode_utf8 (g : Nat → UInt64 → Bytes) (m : Mode) (hg : H1 g) (v : EV) (hw : WF v) (hu : UtfTree v) :
+    ValidUtf8 (encode g m v) :=
+  AslProofs.XdlEnc.encode_utf8 g m hg v hw hu
 
 /-! ## XDL -/
 
@@ -114,11 +182,16 @@ theorem xdl_roundtrip (g : Nat → UInt64 → Bytes) (m : Mode) (hj : m.json = f
   · exact AslProofs.XdlX.xdl_decode_encode g m hp hj hg v hw hd
   · exact AslProofs.XdlX.xdl_decode_encode_pretty g m hp hj hg v hw hd
 
-/-- what comes back for scalars in XDL: the same boolean, string, and int (when it has at most 9 characters) -/
-theorem xdl_roundtrip_scalars (g : Nat → UInt64 → Bytes) (m : Mode) (s : Bytes) (b : Bool) :
-    AslProofs.XdlX.xnorm g m (.str s) = .str s ∧ AslProofs.XdlX.xnorm g m (.bool b) = .bool b ∧
-    AslProofs.XdlX.xnorm g m .null = .null := by
-  simp [AslProofs.XdlX.xnorm]
+/-- the XDL result has the structure of the tree (`SameX`: as `Same`, with the class name as first member `$type`) -/
+theorem xdl_roundtrip_same (g : Nat → UInt64 → Bytes) (m : Mode) (hj : m.json = false) (hg : H1 g) (v : EV)
+    (hw : AslProofs.XdlX.WFX v) (hk : KeysNodup v) (hd : AslProofs.XdlX.xdepth v ≤ 1000) :
+    ∃ r, decode (encode g m v) = some (some r) ∧ AslProofs.XdlX.SameX (NumJ g m) v r :=
+  ⟨_, xdl_roundtrip g m hj hg v hw hd, AslProofs.XdlX.same_xdl g m v hw hk⟩
+
+/-- `Xdl::write` then `Xdl::read` through a file of any size = `Xdl::decode ∘ Xdl::encode` -/
+theorem xdl_file_roundtrip (g : Nat → UInt64 → Bytes) (m : Mode) (hj : m.json = false) (hg : H1 g) (v : EV)
+    (hw : AslProofs.XdlX.WFX v) : readFile (writeChunks g m v).flatten = decode (encode g m v) :=
+  AslProofs.XdlX.xdl_file_roundtrip g m hj hg v hw
 
 /-- non-vacuity of the XDL hypotheses: `Point{on=Y,x=1}` -/
 example : AslProofs.XdlX.WFX (.obj [(classKey, .str [80, 111, 105, 110, 116]), ([111, 110], .bool true), ([120], .int 1)]) := by
